@@ -224,6 +224,30 @@ class Crate:
     def impls_of(self, trait):
         return [i for i in self.impls if i["trait"] == trait]
 
+    def callees(self, path):
+        b = self.bodies.get(path)
+        if b is None: return set()
+        out = set()
+        for bodyish in [b] + b.promoted:
+            for bb, t in bodyish.calls():
+                n = callee_name(t["func"])
+                if n: out.add(n)
+        return out
+
+    def reaches(self, src, dst_pred, max_depth=6):
+        """does the static call graph (local bodies, resolved names) lead from src to a callee
+        satisfying dst_pred?"""
+        seen = set(); frontier = [src]
+        for _ in range(max_depth):
+            nxt = []
+            for f in frontier:
+                for c in self.callees(f):
+                    if dst_pred(c): return True
+                    if c not in seen and c in self.bodies:
+                        seen.add(c); nxt.append(c)
+            frontier = nxt
+        return False
+
     def callers(self):
         """callee path -> list of (caller path, bb) over the whole crate (resolved names)."""
         if self._callers is None:
